@@ -38,7 +38,11 @@ HAND = ["i0 := 1;", "b0;", "[ start ] b0;", "( start, end ] b0;", "[ start, end 
         "when [ end ] b0 { i0 :decrease 1; };", "[ start ] when b0 { b0 := false; } ;", "[ start ] when b0 b0 := false;",
         "[ start ] forall (T0 x){ b1(x) := true; };", "[ end - 2 ] forall (T0 x, T1 y){ when b1(x) { b2(y, x) := b0; }; };",
         "[ start ] (when b0 { i0 := 1; });", "[ start ] i0 := ;", "[ start + 1, end - 1 ] (i0 < 3);", "[ start ] nosuch := 1;",
-        "[ start ] i0 := 1", "[ start + 2/4 ] b0;", "[ start ] (i0 + 1) := 2;", "[ start ] a0 := a1;"]
+        "[ start ] i0 := 1", "[ start + 2/4 ] b0;", "[ start ] (i0 + 1) := 2;", "[ start ] a0 := a1;",
+        "[ start ] when (not (i0 == 1)) { b0 := true; };", "when (not (b0 and b0)) { i0 :increase 1; };",
+        "[ end ] when (not b0) { b0 := true; };", "when not (b0 or b0) { b0 := false; };",
+        "[ start ] forall (T0 x){ when (not (b1(x) and b0)) { b1(x) := false; }; };", "( start, end ) (not (i0 < 2));",
+        "when (i0) { b0 := true; };", "when (start) b0 { b0 := true; };"]
 
 
 def tokenize(text, sid):
@@ -97,7 +101,7 @@ def run(ctx):
     n_stmts = 36 if ctx.quick else 160
     n_hand = len(HAND)
     dist = {"cond": 0, "effect": 0, "conditional": 0, "forall": 0, "increase": 0, "decrease": 0, "point": 0,
-            "open_brackets": 0, "rational_delay": 0, "hand": 0, "reader_raised": 0, "skipped_constant": 0}
+            "open_brackets": 0, "rational_delay": 0, "hand": 0, "reader_raised": 0, "skipped_constant": 0, "when_not": 0}
 
     w = World(rng, with_ifuns=False, env=up.environment.get_environment())   # the reader builds in the global env
     em, simp = w.em, w.env.simplifier
@@ -122,20 +126,15 @@ def run(ctx):
         dist["open_brackets"] += lop or rop
         return TimeInterval(lo, hi, lop, rop)
 
-    problem = w.problem.clone()
-    built = []
-    k = 0
-    while len(built) < n_stmts:
-        k += 1
-        a = DurativeAction("s_%d" % k, OrderedDict((p.name, p.type) for p in w.params), w.env)
-        a.set_fixed_duration(5)
+    def fill(a):
         if rng.random() < 0.4:
             c = simp.simplify(w.gen_bool(rng.choice([1, 2, 2]), ()))
             if c.is_bool_constant():
                 dist["skipped_constant"] += 1
-                continue
+                return None
             a.add_condition(interval(), c)
             dist["cond"] += 1
+            return "cond"
         else:
             scope = ()
             vs = []
@@ -159,6 +158,11 @@ def run(ctx):
             cond = em.TRUE()
             if rng.random() < 0.45:
                 cond = simp.simplify(w.gen_bool(rng.choice([1, 2]), scope))
+                # "when (not (...))" was unreadable before /repo commit c591b89 (the grammar took "(not (...))" for an
+                # interval): generated on purpose now
+                if rng.random() < 0.25 and not cond.is_not():
+                    cond = em.Not(cond)
+                    dist["when_not"] += 1
                 if cond.is_bool_constant():
                     cond = em.TRUE()
                 else:
@@ -173,11 +177,29 @@ def run(ctx):
                 else:
                     a.add_decrease_effect(t, target, v, cond, forall=vs)
                     dist["decrease"] += 1
+            except ZeroDivisionError:
+                raise
             except Exception:
-                continue
+                return None
             dist["effect"] += 1
+            return "effect"
+
+    problem = w.problem.clone()
+    built = []
+    k = 0
+    while len(built) < n_stmts:
+        k += 1
+        a = DurativeAction("s_%d" % k, OrderedDict((p.name, p.type) for p in w.params), w.env)
+        a.set_fixed_duration(5)
+        try:
+            kind_of_stmt = fill(a)
+        except ZeroDivisionError:       # the Simplifier met a constant division by zero in a generated expression
+            continue
+        if kind_of_stmt is None:
+            continue
         problem.add_action(a)
         built.append(a)
+
 
     full, mapping = Captured().write(problem)
     nm = lambda item: up.io.anml_writer._get_anml_name(item, mapping)   # noqa: E731
@@ -218,7 +240,28 @@ def run(ctx):
         finally:
             fnode_mod.FNode.simplify = orig
 
-    q = read(full)
+    rejected = set()
+    try:
+        q = read(full)
+    except Exception:
+        # the reader rejects something the writer wrote: find the statements, report them, go on with the others
+        decls = "".join(sg for sg in segs if not sg.startswith("action "))
+        keep = []
+        for sg in segs:
+            m_ = re.match(r"action (s_\d+)\(", sg)
+            if not m_:
+                continue
+            try:
+                read(decls + sg)
+                keep.append(sg)
+            except Exception as ex:
+                rejected.add(m_.group(1))
+                ctx.fail("oracle", "ANMLReader rejects a statement written by ANMLWriter: %s (%s)" % (
+                    " ".join(stmt_text[m_.group(1)].split())[:200], type(ex).__name__),
+                    ["c19-stmt", "written", "reader-rejects-writer-output"],
+                    {"statement": stmt_text[m_.group(1)], "error": str(ex)[:300]}, True)
+        q = read(decls + "".join(keep))
+        built[:] = [a_ for a_ in built if a_.name not in rejected]
     hand_parsed = []
     for t in HAND[:n_hand]:
         body = header + "action h_0(%s) {\n   duration >= 5 and duration <= 5;\n   %s\n};\n" % (params_text, t)
